@@ -1080,3 +1080,702 @@ func ra4fRollbackOwnsKeys(w *World) {
 	}
 	w.info("rollback-owns-keys|rollbacks", token.NoPos, fmt.Sprintf("%d roll-back functions (delete from a packageSymbols table by a slice parameter)", nRollbacks))
 }
+
+// RG2 (C34): a panic that unwinds task.run is swallowed on every path of its deferred handler
+// except the deliberate one. The handler may leave a panic un-recovered only when the Run was
+// *aborted* (an internal invariant violation: the root goroutine is meant to re-panic) — the
+// branch established by `caller.aborted() != nil`. A merely cancelled context (an earlier
+// ErrPanic of a sibling query, a user cancel) is not that: a second query panicking after the
+// first cancelled the run, or a nested dependency panicking while its parent waits on the root
+// goroutine, would escape incremental.Run instead of becoming an error. Must-dataflow over the
+// deferred function literal that contains recover(): fact "recovered" after a recover() call,
+// fact "aborted" on the edge where `<x>.aborted() != nil` is implied; every exit needs one.
+func rg2PanicAlwaysRecovered(w *World) {
+	w.rule("RG2")
+	run := w.fn(incRel, "(*task).run")
+	aborted := w.fn(incRel, "(*Task).aborted")
+	if run == nil || aborted == nil {
+		return
+	}
+	info := run.Pkg.TypesInfo
+	var handler *ast.FuncLit
+	ast.Inspect(run.Decl.Body, func(x ast.Node) bool {
+		ds, ok := x.(*ast.DeferStmt)
+		if !ok || handler != nil {
+			return true
+		}
+		if fl, ok := ds.Call.Fun.(*ast.FuncLit); ok {
+			has := false
+			ast.Inspect(fl.Body, func(y ast.Node) bool {
+				if c, ok := y.(*ast.CallExpr); ok && isBuiltinCall(info, c, "recover") {
+					has = true
+				}
+				return true
+			})
+			if has {
+				handler = fl
+			}
+		}
+		return true
+	})
+	if handler == nil {
+		w.undecided("panic-always-recovered|handler", run.Decl.Pos(), "task.run has no deferred function literal that calls recover()")
+		return
+	}
+	g := buildCFG(info, handler.Body)
+	d := &Dataflow{G: g, Must: true, Init: Facts{}}
+	d.Transfer = func(n ast.Node, in Facts) Facts {
+		out := in
+		inspectPost(n, func(x ast.Node) {
+			if c, ok := x.(*ast.CallExpr); ok && isBuiltinCall(info, c, "recover") {
+				out = out.with("settled")
+			}
+		})
+		return out
+	}
+	d.Branch = func(leaf ast.Expr, truth bool, s Facts) Facts {
+		be, ok := ast.Unparen(leaf).(*ast.BinaryExpr)
+		if !ok || !isNilIdent(info, be.Y) {
+			return s
+		}
+		c, ok := ast.Unparen(be.X).(*ast.CallExpr)
+		if !ok || callee(info, c) != aborted.Obj {
+			return s
+		}
+		if (be.Op == token.NEQ) == truth {
+			return s.with("settled") // aborted: the root goroutine re-panics on purpose
+		}
+		return s
+	}
+	d.Run()
+	var bad []string
+	nExit := 0
+	for _, e := range d.Exits(info, handler.Body.End()) {
+		nExit++
+		if !e.State["settled"] {
+			bad = append(bad, w.pos(e.Pos))
+		}
+	}
+	// runtime.Goexit() is an exit as well
+	d.Walk(func(_ *cfg.Block, n ast.Node, before Facts) {
+		for _, c := range callsIn(n) {
+			if f := callee(info, c); f != nil && f.Pkg() != nil && f.Pkg().Path() == "runtime" && f.Name() == "Goexit" {
+				nExit++
+				if !before["settled"] {
+					bad = append(bad, w.pos(c.Pos()))
+				}
+			}
+		}
+	})
+	if len(bad) == 0 {
+		w.ok("panic-always-recovered", handler.Pos(), fmt.Sprintf("on each of the %d exits of task.run's deferred handler the panic has been recovered, or the Run is known to be aborted (the deliberate re-panic)", nExit))
+	} else {
+		sort.Strings(bad)
+		w.violation("panic-always-recovered", handler.Pos(), "task.run's deferred handler can finish (at "+strings.Join(bad, ", ")+") without calling recover() on a path where the Run is not known to be aborted: with a context that is merely cancelled (an earlier ErrPanic, a user cancel) a panicking query unwinds through incremental.Run on the root goroutine instead of being turned into an error")
+	}
+}
+
+// RE-inc transfer shape (C34): Task.transferFrom is the hand-over of the semaphore permit between
+// caller and callee; RE-inc models it as an unconditional swap of the two `holding` flags. Its
+// body must be that: every normal exit is preceded by the swap assignment. An early return (for
+// instance "the context is cancelled anyway") leaves the permit recorded on a Task that is about
+// to be dropped — release() then finds holding == false and returns silently, and the permit is
+// never given back: after as many such runs as there are permits every later Run blocks.
+func reIncTransferShape(w *World) {
+	w.rule("RE")
+	tf := w.fn(incRel, "(*Task).transferFrom")
+	holding := w.field(incRel, "Task", "holding")
+	if tf == nil || holding == nil {
+		return
+	}
+	info := tf.Pkg.TypesInfo
+	isSwap := func(n ast.Node) bool {
+		as, ok := n.(*ast.AssignStmt)
+		if !ok || len(as.Lhs) != 2 || len(as.Rhs) != 2 {
+			return false
+		}
+		for _, e := range append(append([]ast.Expr{}, as.Lhs...), as.Rhs...) {
+			if selField(info, e) != holding {
+				return false
+			}
+		}
+		return render(as.Lhs[0]) == render(as.Rhs[1]) && render(as.Lhs[1]) == render(as.Rhs[0]) && render(as.Lhs[0]) != render(as.Lhs[1])
+	}
+	g := buildCFG(info, tf.Decl.Body)
+	d := &Dataflow{G: g, Must: true, Init: Facts{}}
+	d.Transfer = func(n ast.Node, in Facts) Facts {
+		if isSwap(n) {
+			return in.with("swapped")
+		}
+		return in
+	}
+	d.Run()
+	var bad []string
+	for _, e := range d.Exits(info, tf.Decl.Body.End()) {
+		if e.Kind == "panic" {
+			continue
+		}
+		if !e.State["swapped"] {
+			bad = append(bad, w.pos(e.Pos))
+		}
+	}
+	// t.abort(...) panics; exits through it are not normal exits
+	if len(bad) > 0 {
+		var real []string
+		for _, e := range d.Exits(info, tf.Decl.Body.End()) {
+			if e.State["swapped"] || e.Kind == "panic" {
+				continue
+			}
+			if es, ok := e.Last.(*ast.ExprStmt); ok {
+				if c, ok := es.X.(*ast.CallExpr); ok {
+					if f := callee(info, c); f != nil && f.Name() == "abort" {
+						continue
+					}
+				}
+			}
+			real = append(real, w.pos(e.Pos))
+		}
+		bad = real
+	}
+	if len(bad) == 0 {
+		w.ok("transfer-is-a-swap", tf.Decl.Pos(), "every normal exit of Task.transferFrom has swapped the holding flags of the two tasks")
+	} else {
+		sort.Strings(bad)
+		w.violation("transfer-is-a-swap", tf.Decl.Pos(), "Task.transferFrom can return (at "+strings.Join(bad, ", ")+") without swapping the holding flags: the permit stays recorded on the other Task, whose release() never runs (or returns silently because the context is cancelled), so the permit is never given back and later Runs block once all permits have leaked")
+	}
+}
+
+// RA4g (C16, C17): the check pass covers everything the commit pass writes. Importing a file is
+// check-then-commit under one lock: checkFileLocked / checkResultLocked walk the file's
+// descriptors and look each name up in the package's symbol table, commitFileLocked walks them
+// again and stores each name unconditionally. The check callback must therefore perform the
+// lookup on every path that ends in "no problem" (return nil): a path that skips it — nested
+// elements, say, on the grounds that their parent's name was checked — leaves names unchecked
+// that the commit then overwrites (the values of a top-level enum live in the package scope,
+// next to the enum).
+func ra4gCheckCoversCommit(w *World) {
+	w.rule("RA4g")
+	p := w.pkg("linker")
+	symF := w.field("linker", "packageSymbols", "symbols")
+	if p == nil || symF == nil {
+		return
+	}
+	info := p.TypesInfo
+	n := 0
+	for _, name := range []string{"(*packageSymbols).checkFileLocked", "(*packageSymbols).checkResultLocked"} {
+		fr := w.fn("linker", name)
+		if fr == nil {
+			continue
+		}
+		// the callback handed to walk.Descriptors
+		var cb *ast.FuncLit
+		ast.Inspect(fr.Decl.Body, func(x ast.Node) bool {
+			c, ok := x.(*ast.CallExpr)
+			if !ok || cb != nil {
+				return true
+			}
+			if f := callee(info, c); f != nil && f.Pkg() != nil && strings.HasSuffix(f.Pkg().Path(), "/walk") {
+				for _, a := range c.Args {
+					if fl, ok := a.(*ast.FuncLit); ok {
+						cb = fl
+					}
+				}
+			}
+			return true
+		})
+		if cb == nil {
+			w.undecided("check-covers-commit|"+fr.Name, fr.Decl.Pos(), "no walk callback found in the check pass")
+			continue
+		}
+		n++
+		isLookup := func(x ast.Node) bool {
+			found := false
+			ast.Inspect(x, func(y ast.Node) bool {
+				if _, ok := y.(*ast.FuncLit); ok {
+					return false
+				}
+				if ix, ok := y.(*ast.IndexExpr); ok && selField(info, ix.X) == symF {
+					found = true
+				}
+				return !found
+			})
+			return found
+		}
+		g := buildCFG(info, cb.Body)
+		d := &Dataflow{G: g, Must: true, Init: Facts{}}
+		d.Transfer = func(nd ast.Node, in Facts) Facts {
+			if isLookup(nd) {
+				return in.with("looked")
+			}
+			return in
+		}
+		d.Run()
+		var bad []string
+		for _, e := range d.Exits(info, cb.Body.End()) {
+			if e.State["looked"] {
+				continue
+			}
+			// only the "no problem" exits matter
+			if r, ok := e.Last.(*ast.ReturnStmt); ok && len(r.Results) == 1 && !isNilIdent(info, r.Results[0]) {
+				continue
+			}
+			bad = append(bad, w.pos(e.Pos))
+		}
+		key := "check-covers-commit|" + fr.Name
+		if len(bad) == 0 {
+			w.ok(key, cb.Pos(), "every descriptor the walk visits is looked up in the symbol table before the callback reports no problem")
+		} else {
+			sort.Strings(bad)
+			w.violation(key, cb.Pos(), "the check pass can return nil for a descriptor (at "+strings.Join(bad, ", ")+") without having looked its name up in the symbol table, while the commit pass stores every descriptor's name unconditionally: a name that collides with an existing symbol (e.g. a value of a top-level enum, which is scoped in the package) is not reported and silently overwrites the existing entry")
+		}
+	}
+	w.floor("check passes of the symbol import", n, 2)
+}
+
+// RW6 (C28): suggested edits lie inside their snippet. report.SuggestEdits(at, msg, edits…)
+// slices the snippet's text with every edit (`text[edit.Start:edit.End]`): Start and End are
+// offsets *relative to the snippet's span*. An edit outside it panics inside the lexer or parser
+// and becomes an internal compiler error. For each call (the widening variant excepted) and each
+// Edit literal that reaches it (inline, or appended to the slice that is passed) the bounds are
+// classified:
+//
+//	constant, or a length (`X.Len()`, `len(X.Text())`)          relative — X must be the snippet
+//	`X.Start - S.Start` / `X.End - S.Start`                       relative, if S is the snippet's span and
+//	                                                              X has not been grown (GrowLeft/GrowRight,
+//	                                                              End++, Start--) beyond a sub-span
+//	anything else that mentions a span's Start/End                 a file offset used as a relative one
+func rw6EditsInsideSnippet(w *World) {
+	w.rule("RW6")
+	rp := w.pkg("experimental/report")
+	if rp == nil {
+		return
+	}
+	suggest, _ := rp.Types.Scope().Lookup("SuggestEdits").(*types.Func)
+	editT, _ := rp.Types.Scope().Lookup("Edit").(*types.TypeName)
+	if suggest == nil || editT == nil {
+		w.undecided("edits-inside-snippet|anchor", token.NoPos, "report.SuggestEdits / report.Edit not found")
+		return
+	}
+	nCalls, nEdits := 0, 0
+	for _, p := range w.Roots {
+		if !strings.Contains(p.PkgPath, "/experimental/") || p == rp {
+			continue
+		}
+		info := p.TypesInfo
+		for _, b := range allFuncBodies(p) {
+			if b.Lit != nil {
+				continue
+			}
+			// canonical name of a span-ish expression: strip .Span() and source.GetSpan()
+			var canon func(e ast.Expr) string
+			localDef := map[types.Object]ast.Expr{} // single-definition locals
+			defCount := map[types.Object]int{}
+			grown := map[types.Object]string{}
+			ast.Inspect(b.Body, func(x ast.Node) bool {
+				switch s := x.(type) {
+				case *ast.AssignStmt:
+					if len(s.Lhs) == len(s.Rhs) {
+						for i, l := range s.Lhs {
+							if id, ok := l.(*ast.Ident); ok {
+								o := info.Defs[id]
+								if o == nil {
+									o = info.Uses[id]
+								}
+								if o != nil {
+									defCount[o]++
+									localDef[o] = s.Rhs[i]
+									if g := growCall(s.Rhs[i]); g != "" {
+										grown[o] = g + " at " + w.pos(s.Pos())
+									}
+								}
+							}
+							// X.End = … / X.Start = …
+							if sel, ok := l.(*ast.SelectorExpr); ok && (sel.Sel.Name == "End" || sel.Sel.Name == "Start") {
+								if id, ok := ast.Unparen(sel.X).(*ast.Ident); ok {
+									if o := info.Uses[id]; o != nil && s.Tok != token.DEFINE {
+										grown[o] = types.ExprString(l) + " " + s.Tok.String() + " … at " + w.pos(s.Pos())
+									}
+								}
+							}
+						}
+					}
+				case *ast.IncDecStmt:
+					if sel, ok := s.X.(*ast.SelectorExpr); ok && (sel.Sel.Name == "End" || sel.Sel.Name == "Start") {
+						if id, ok := ast.Unparen(sel.X).(*ast.Ident); ok {
+							if o := info.Uses[id]; o != nil {
+								grown[o] = types.ExprString(s.X) + s.Tok.String() + " at " + w.pos(s.Pos())
+							}
+						}
+					}
+				}
+				return true
+			})
+			canon = func(e ast.Expr) string {
+				e = ast.Unparen(e)
+				if c, ok := e.(*ast.CallExpr); ok {
+					if sel, ok := ast.Unparen(c.Fun).(*ast.SelectorExpr); ok && sel.Sel.Name == "Span" && len(c.Args) == 0 {
+						return canon(sel.X)
+					}
+					if f := callee(info, c); f != nil && f.Name() == "GetSpan" && len(c.Args) == 1 {
+						return canon(c.Args[0])
+					}
+				}
+				if id, ok := e.(*ast.Ident); ok {
+					if o := info.Uses[id]; o != nil && defCount[o] == 1 && grown[o] == "" {
+						if d := localDef[o]; d != nil {
+							if dc, ok := ast.Unparen(d).(*ast.CallExpr); ok {
+								if sel, ok := ast.Unparen(dc.Fun).(*ast.SelectorExpr); ok && sel.Sel.Name == "Span" && len(dc.Args) == 0 {
+									return canon(sel.X)
+								}
+							}
+						}
+					}
+				}
+				return types.ExprString(e)
+			}
+			ord := 0
+			ast.Inspect(b.Body, func(x ast.Node) bool {
+				call, ok := x.(*ast.CallExpr)
+				if !ok || callee(info, call) != suggest || len(call.Args) < 2 {
+					return true
+				}
+				nCalls++
+				snip := canon(call.Args[0])
+				// the Edit literals that reach the call
+				var lits []*ast.CompositeLit
+				for _, a := range call.Args[2:] {
+					a = ast.Unparen(a)
+					if cl, ok := a.(*ast.CompositeLit); ok {
+						lits = append(lits, cl)
+						continue
+					}
+					if id, ok := a.(*ast.Ident); ok && call.Ellipsis.IsValid() {
+						lo := info.Uses[id]
+						ast.Inspect(b.Body, func(y ast.Node) bool {
+							as, ok := y.(*ast.AssignStmt)
+							if !ok || len(as.Lhs) != 1 || len(as.Rhs) != 1 {
+								return true
+							}
+							lid, ok := as.Lhs[0].(*ast.Ident)
+							if !ok || (info.Uses[lid] != lo && info.Defs[lid] != lo) {
+								return true
+							}
+							ast.Inspect(as.Rhs[0], func(z ast.Node) bool {
+								if cl, ok := z.(*ast.CompositeLit); ok {
+									if tv, ok := info.Types[cl]; ok {
+										if nt, ok := tv.Type.(*types.Named); ok && nt.Obj() == editT {
+											lits = append(lits, cl)
+											return false
+										}
+									}
+								}
+								return true
+							})
+							return true
+						})
+					}
+				}
+				for _, cl := range lits {
+					for _, el := range cl.Elts {
+						kv, ok := el.(*ast.KeyValueExpr)
+						if !ok {
+							continue
+						}
+						fname := render(kv.Key)
+						if fname != "Start" && fname != "End" {
+							continue
+						}
+						nEdits++
+						ord++
+						verdict, why := classifyEditBound(info, kv.Value, snip, canon, grown)
+						key := fmt.Sprintf("edits-inside-snippet|%s|%s: %s", b.Label, fname, types.ExprString(kv.Value))
+						switch verdict {
+						case "ok":
+							w.ok(key, kv.Pos(), why)
+						case "bad":
+							w.violation(key, kv.Pos(), why+" — report.SuggestEdits slices the snippet text with the edit, so an edit outside the snippet panics during lexing/parsing and surfaces as an internal compiler error")
+						default:
+							w.info(key, kv.Pos(), "not classified: "+why)
+						}
+					}
+				}
+				return true
+			})
+		}
+	}
+	w.floor("report.SuggestEdits calls in experimental/", nCalls, 40)
+	w.floor("classified edit bounds", nEdits, 60)
+}
+
+func growCall(e ast.Expr) string {
+	found := ""
+	ast.Inspect(e, func(x ast.Node) bool {
+		if c, ok := x.(*ast.CallExpr); ok {
+			if sel, ok := ast.Unparen(c.Fun).(*ast.SelectorExpr); ok && (sel.Sel.Name == "GrowLeft" || sel.Sel.Name == "GrowRight") {
+				found = sel.Sel.Name
+			}
+		}
+		return found == ""
+	})
+	return found
+}
+
+func classifyEditBound(info *types.Info, e ast.Expr, snip string, canon func(ast.Expr) string, grown map[types.Object]string) (string, string) {
+	e = ast.Unparen(e)
+	if tv, ok := info.Types[e]; ok && tv.Value != nil {
+		return "ok", "a constant offset"
+	}
+	// does the expression mention a span's Start/End at all?
+	var offs []*ast.SelectorExpr
+	ast.Inspect(e, func(x ast.Node) bool {
+		if sel, ok := x.(*ast.SelectorExpr); ok && (sel.Sel.Name == "Start" || sel.Sel.Name == "End") {
+			if t := info.TypeOf(sel.X); t != nil && strings.HasSuffix(t.String(), "source.Span") {
+				offs = append(offs, sel)
+			}
+		}
+		return true
+	})
+	if len(offs) == 0 {
+		// lengths: X.Len() / len(X.Text()) must be the snippet's own
+		var other []string
+		ast.Inspect(e, func(x ast.Node) bool {
+			c, ok := x.(*ast.CallExpr)
+			if !ok {
+				return true
+			}
+			if sel, ok := ast.Unparen(c.Fun).(*ast.SelectorExpr); ok && sel.Sel.Name == "Len" && len(c.Args) == 0 {
+				if cn := canon(sel.X); cn != snip {
+					other = append(other, cn)
+				}
+				return false
+			}
+			if id, ok := ast.Unparen(c.Fun).(*ast.Ident); ok && id.Name == "len" && len(c.Args) == 1 {
+				if tc, ok := ast.Unparen(c.Args[0]).(*ast.CallExpr); ok {
+					if sel, ok := ast.Unparen(tc.Fun).(*ast.SelectorExpr); ok && sel.Sel.Name == "Text" {
+						if cn := canon(sel.X); cn != snip {
+							other = append(other, cn)
+						}
+						return false
+					}
+				}
+			}
+			return true
+		})
+		if len(other) > 0 {
+			return "unknown", "a length of " + strings.Join(other, ", ") + ", which is not the snippet (" + snip + ")"
+		}
+		return "ok", "a length of the snippet / a span-free offset"
+	}
+	// X.{Start,End} - S.Start
+	if be, ok := e.(*ast.BinaryExpr); ok && be.Op == token.SUB {
+		if ys, ok := ast.Unparen(be.Y).(*ast.SelectorExpr); ok && ys.Sel.Name == "Start" && canon(ys.X) == snip {
+			if xs, ok := ast.Unparen(be.X).(*ast.SelectorExpr); ok && (xs.Sel.Name == "Start" || xs.Sel.Name == "End") {
+				if id, ok := ast.Unparen(xs.X).(*ast.Ident); ok {
+					if g := grown[info.Uses[id]]; g != "" {
+						return "bad", "the edit is bounded by " + types.ExprString(be.X) + ", a span that was extended (" + g + ") and may reach past the snippet " + snip + " (e.g. over white space after an unterminated declaration); only SuggestEditsWithWidening accepts that"
+					}
+				}
+				return "ok", "an offset of a sub-span relative to the snippet's start"
+			}
+		}
+	}
+	for _, sel := range offs {
+		_ = sel
+	}
+	// a file offset that is not made relative to the snippet
+	relative := false
+	if be, ok := e.(*ast.BinaryExpr); ok && be.Op == token.SUB {
+		if ys, ok := ast.Unparen(be.Y).(*ast.SelectorExpr); ok && ys.Sel.Name == "Start" {
+			relative = true // relative to some other span: not decided
+		}
+	}
+	if relative {
+		return "unknown", "relative to " + types.ExprString(e.(*ast.BinaryExpr).Y) + ", which is not the snippet's start"
+	}
+	return "bad", types.ExprString(e) + " is an offset into the file (it uses a span's Start/End without subtracting the snippet's Start), but Edit bounds are relative to the snippet " + snip
+}
+
+// RW7 (C28): recursion that follows the nesting of the input is bounded. The experimental parser
+// is recursive descent: parseDecl -> parseBody -> parseDecl … one cycle of frames per `{`, and
+// likewise for expressions and types. Go stacks grow to 1 GB and then the runtime aborts the
+// process with "fatal error: stack overflow", which neither recover() nor CatchICE can intercept —
+// the opposite of "finishes without a panic for any source text". For every cycle (strongly
+// connected component) of the package's static call graph that contains a function taking a
+// *token.Cursor or token.Token (the functions that descend into nested input), some function of
+// the cycle must contain a depth guard: a comparison of a depth/nesting counter with a bound whose
+// branch leaves the function.
+func rw7RecursionBounded(w *World) {
+	w.rule("RW7")
+	p := w.pkg("experimental/parser")
+	if p == nil {
+		return
+	}
+	info := p.TypesInfo
+	decls := map[*types.Func]*ast.FuncDecl{}
+	var order []*types.Func
+	for _, b := range allFuncBodies(p) {
+		if b.Lit == nil {
+			decls[b.Obj] = b.Decl
+			order = append(order, b.Obj)
+		}
+	}
+	edges := map[*types.Func][]*types.Func{}
+	for f, d := range decls {
+		seen := map[*types.Func]bool{}
+		ast.Inspect(d.Body, func(x ast.Node) bool {
+			switch y := x.(type) {
+			case *ast.CallExpr:
+				if g := callee(info, y); g != nil && decls[g.Origin()] != nil && !seen[g.Origin()] {
+					seen[g.Origin()] = true
+					edges[f] = append(edges[f], g.Origin())
+				}
+			case *ast.Ident:
+				// a function value (callback) counts as a potential call
+				if g, ok := info.Uses[y].(*types.Func); ok && decls[g.Origin()] != nil && !seen[g.Origin()] {
+					seen[g.Origin()] = true
+					edges[f] = append(edges[f], g.Origin())
+				}
+			}
+			return true
+		})
+	}
+	// Tarjan
+	index, low := map[*types.Func]int{}, map[*types.Func]int{}
+	onStack := map[*types.Func]bool{}
+	var stack []*types.Func
+	var sccs [][]*types.Func
+	next := 0
+	var strong func(v *types.Func)
+	strong = func(v *types.Func) {
+		index[v], low[v] = next, next
+		next++
+		stack = append(stack, v)
+		onStack[v] = true
+		for _, u := range edges[v] {
+			if _, ok := index[u]; !ok {
+				strong(u)
+				if low[u] < low[v] {
+					low[v] = low[u]
+				}
+			} else if onStack[u] && index[u] < low[v] {
+				low[v] = index[u]
+			}
+		}
+		if low[v] == index[v] {
+			var comp []*types.Func
+			for {
+				u := stack[len(stack)-1]
+				stack = stack[:len(stack)-1]
+				onStack[u] = false
+				comp = append(comp, u)
+				if u == v {
+					break
+				}
+			}
+			sccs = append(sccs, comp)
+		}
+	}
+	for _, f := range order {
+		if _, ok := index[f]; !ok {
+			strong(f)
+		}
+	}
+	takesInput := func(f *types.Func) bool {
+		sig := f.Type().(*types.Signature)
+		for i := 0; i < sig.Params().Len(); i++ {
+			t := sig.Params().At(i).Type().String()
+			if strings.HasSuffix(t, "token.Cursor") || strings.HasSuffix(t, "token.Token") {
+				return true
+			}
+		}
+		return false
+	}
+	isDepthName := func(s string) bool {
+		s = strings.ToLower(s)
+		return strings.Contains(s, "depth") || strings.Contains(s, "nest") || strings.Contains(s, "recurs") || strings.Contains(s, "level")
+	}
+	hasGuard := func(d *ast.FuncDecl) bool {
+		found := false
+		ast.Inspect(d.Body, func(x ast.Node) bool {
+			ifs, ok := x.(*ast.IfStmt)
+			if !ok || found {
+				return !found
+			}
+			be, ok := ast.Unparen(ifs.Cond).(*ast.BinaryExpr)
+			if !ok {
+				return true
+			}
+			switch be.Op {
+			case token.GTR, token.GEQ, token.LSS, token.LEQ:
+			default:
+				return true
+			}
+			mentions := false
+			ast.Inspect(be, func(y ast.Node) bool {
+				switch z := y.(type) {
+				case *ast.Ident:
+					if isDepthName(z.Name) {
+						mentions = true
+					}
+				case *ast.SelectorExpr:
+					if isDepthName(z.Sel.Name) {
+						mentions = true
+					}
+				}
+				return true
+			})
+			if !mentions || len(ifs.Body.List) == 0 {
+				return true
+			}
+			if _, ok := ifs.Body.List[len(ifs.Body.List)-1].(*ast.ReturnStmt); ok {
+				found = true
+			}
+			return true
+		})
+		return found
+	}
+	n := 0
+	for _, comp := range sccs {
+		cyclic := len(comp) > 1
+		if !cyclic {
+			for _, u := range edges[comp[0]] {
+				if u == comp[0] {
+					cyclic = true
+				}
+			}
+		}
+		if !cyclic {
+			continue
+		}
+		input := false
+		var names []string
+		for _, f := range comp {
+			if takesInput(f) {
+				input = true
+			}
+			names = append(names, f.Name())
+		}
+		if !input {
+			continue
+		}
+		sort.Strings(names)
+		n++
+		guarded := ""
+		for _, f := range comp {
+			if hasGuard(decls[f]) {
+				guarded = f.Name()
+			}
+		}
+		key := "recursion-depth|" + names[0] + "…" + names[len(names)-1]
+		shown := names
+		if len(shown) > 6 {
+			shown = append(append([]string{}, shown[:6]...), "…")
+		}
+		if guarded != "" {
+			w.ok(key, decls[comp[0]].Pos(), "the recursion {"+strings.Join(shown, ", ")+"} is bounded by the depth guard in "+guarded)
+		} else {
+			w.violation(key, decls[comp[0]].Pos(), fmt.Sprintf("the %d mutually recursive parser functions {%s} descend once per nesting level of the input and none of them bounds the depth: a few million opening brackets exhaust the 1 GB goroutine stack and the runtime aborts the process (fatal error: stack overflow — not a panic, so neither recover nor CatchICE sees it)", len(comp), strings.Join(shown, ", ")))
+		}
+	}
+	w.floor("input-driven recursion cycles in experimental/parser", n, 1)
+}
